@@ -9,8 +9,14 @@
 (*          [t |-> "arr", es]   [t |-> "rec", ns, vs]  (by value)           *)
 (*          [t |-> "sum", k, p]  optional / enum value: current variant k   *)
 (*          (optional: 1 = payload, 2 = nil) and its payload p              *)
-(* State:   [env |-> stack of scopes (innermost last; a scope is a pair of  *)
-(*           sequences names / values), out |-> printed byte strings,       *)
+(*          [t |-> "ptr", d, l]  pointer: frame number d (1 = main) and a   *)
+(*          place l (variable / field / element with a numeric index) in    *)
+(*          that frame; ^ and ^mut pointers are the same value (mutability  *)
+(*          is a static matter, C14)                                        *)
+(* State:   [env |-> stack of scopes of the running function (innermost     *)
+(*           last; a scope is a pair of sequences names / values),          *)
+(*           stack |-> the environments of the suspended callers (outermost *)
+(*           first), out |-> printed byte strings,                          *)
 (*           fuel |-> remaining loop iterations and calls]                  *)
 (* Result:  [v, st, sig, lab] with sig in                                   *)
 (*          norm | brk | cont | ret | fault | nofuel                        *)
@@ -47,6 +53,10 @@ ScopeOf(env, n, k) == IF k = 0 THEN 0 ELSE IF Has(env[k], n) THEN k ELSE ScopeOf
 Lookup(env, n) == Get(env[ScopeOf(env, n, Len(env))], n)
 Update(env, n, v) == LET k == ScopeOf(env, n, Len(env)) IN [env EXCEPT ![k] = Put(env[k], n, v)]
 Declare(env, n, v) == [env EXCEPT ![Len(env)] = Bind(env[Len(env)], n, v)]
+(* frames: the running function is frame Len(st.stack) + 1 *)
+Depth(st) == Len(st.stack) + 1
+EnvAt(st, d) == IF d = Depth(st) THEN st.env ELSE st.stack[d]
+SetEnvAt(st, d, env) == IF d = Depth(st) THEN [st EXCEPT !.env = env] ELSE [st EXCEPT !.stack[d] = env]
 
 (* -------------------------------------------------------------- arithmetic *)
 IntBin(op, a, b) ==
@@ -82,7 +92,8 @@ FieldPos(r, f) == PosIn(r.ns, f, Len(r.ns))
 
 (* -------------------------------------------------------------- interpreter *)
 RECURSIVE Eval(_, _, _), EvalList(_, _, _, _, _), Exec(_, _, _), ExecSeq(_, _, _, _, _),
-          Block(_, _, _), Loop(_, _, _), RunDefers(_, _, _), Call(_, _, _, _), LRead(_, _), LWrite(_, _, _, _)
+          Block(_, _, _), Loop(_, _, _), RunDefers(_, _, _), Call(_, _, _, _), LRead(_, _), LWrite(_, _, _, _),
+          Resolve(_, _, _)
 
 (* evaluate a list of expressions left to right; result value is the sequence of values *)
 EvalList(P, es, k, acc, st) ==
@@ -101,9 +112,11 @@ Call(P, f, args, st) ==
     ELSE LET fn == FnOf(P, f)
              all == CParams(fn) \o fn.params
              sc == [ns |-> [k \in 1..Len(all) |-> all[k].n], vs |-> args]
-             inner == [st EXCEPT !.env = <<sc>>, !.fuel = st.fuel - 1]
+             inner == [st EXCEPT !.env = <<sc>>, !.stack = Append(st.stack, st.env), !.fuel = st.fuel - 1]
              r == Block(P, fn.body, inner)
-             back == [r.st EXCEPT !.env = st.env]
+             \* the caller's environment as the callee left it (it may have stored through pointers)
+             back == [r.st EXCEPT !.env = r.st.stack[Len(r.st.stack)],
+                                  !.stack = SubSeq(r.st.stack, 1, Len(r.st.stack) - 1)]
          IN IF r.sig \in {"fault", "nofuel"} THEN R(r.v, back, r.sig, "")
             ELSE Norm(r.v, back)          \* norm (tail value) or ret (returned value)
 
@@ -158,6 +171,11 @@ Eval(P, e, st) ==
       [] e.e = "unwrap" -> LET r == Eval(P, e.x, st) IN
                            IF r.sig # "norm" THEN r
                            ELSE IF r.v.k # e.k THEN Fault(r.st, "unwrap") ELSE Norm(r.v.p, r.st)
+      \* pointers: ^place / ^mut place is the place itself (frame + resolved place); p^ reads it
+      [] e.e = "ref" -> LET p == Resolve(P, e.l, st) IN
+                        IF p.sig # "norm" THEN p ELSE Norm([t |-> "ptr", d |-> p.v.d, l |-> p.v.l], p.st)
+      [] e.e = "deref" -> LET r == Eval(P, e.x, st) IN
+                          IF r.sig # "norm" THEN r ELSE Norm(LRead(r.v.l, EnvAt(r.st, r.v.d)), r.st)
       \* x.try on an optional: the payload, or leave the function with nil
       [] e.e = "try" -> LET r == Eval(P, e.x, st) IN
                         IF r.sig # "norm" THEN r
@@ -214,21 +232,25 @@ LWrite(l, v, env, dummy) ==
       [] l.l = "fld" -> LET old == LRead(l.x, env) IN
                         LWrite(l.x, [old EXCEPT !.vs[FieldPos(old, l.f)] = v], env, dummy)
 
-(* evaluate the index expressions of a place (left to right, outermost first as written), checking
-   bounds against the current value; returns the place with numeric indices or a fault *)
-RECURSIVE Resolve(_, _, _)
+(* evaluate the index and pointer expressions of a place (left to right, outermost first as
+   written), checking bounds against the current value; returns [d |-> frame, l |-> the place with
+   numeric indices] or a fault.  A place that starts with a dereference (p^, p.f, p[i]) is the
+   pointer's place, in the pointer's frame. *)
 Resolve(P, l, st) ==
-    CASE l.l = "var" -> Norm([l |-> "var", n |-> l.n], st)
+    CASE l.l = "var" -> Norm([d |-> Depth(st), l |-> [l |-> "var", n |-> l.n]], st)
+      [] l.l = "deref" -> LET r == Eval(P, l.p, st) IN
+                          IF r.sig # "norm" THEN r ELSE Norm([d |-> r.v.d, l |-> r.v.l], r.st)
       [] l.l = "fld" -> LET r == Resolve(P, l.x, st) IN
-                        IF r.sig # "norm" THEN r ELSE Norm([l |-> "fld", x |-> r.v, f |-> l.f], r.st)
+                        IF r.sig # "norm" THEN r
+                        ELSE Norm([d |-> r.v.d, l |-> [l |-> "fld", x |-> r.v.l, f |-> l.f]], r.st)
       [] l.l = "idx" ->
             LET a == Resolve(P, l.a, st) IN
             IF a.sig # "norm" THEN a
             ELSE LET i == Eval(P, l.i, a.st) IN
                  IF i.sig # "norm" THEN i
-                 ELSE LET arr == LRead(a.v, i.st.env) IN
+                 ELSE LET arr == LRead(a.v.l, EnvAt(i.st, a.v.d)) IN
                       IF ~FitsNat(i.v.b) \/ ToNat(i.v.b) >= Len(arr.es) THEN Fault(i.st, "index out of bounds")
-                      ELSE Norm([l |-> "idx", a |-> a.v, k |-> ToNat(i.v.b)], i.st)
+                      ELSE Norm([d |-> a.v.d, l |-> [l |-> "idx", a |-> a.v.l, k |-> ToNat(i.v.b)]], i.st)
 
 Exec(P, s, st) ==
     CASE s.s = "let" -> LET r == Eval(P, s.x, st) IN
@@ -239,16 +261,18 @@ Exec(P, s, st) ==
             IF p.sig # "norm" THEN p
             ELSE LET r == Eval(P, s.x, p.st) IN
                  IF r.sig # "norm" THEN r
-                 ELSE LET w == LWrite(p.v, r.v, r.st.env, 0) IN
-                      Norm(Void, [r.st EXCEPT !.env = Update(r.st.env, w.n, w.v)])
+                 ELSE LET env == EnvAt(r.st, p.v.d)
+                          w == LWrite(p.v.l, r.v, env, 0) IN
+                      Norm(Void, SetEnvAt(r.st, p.v.d, Update(env, w.n, w.v)))
       [] s.s = "cset" ->
             LET p == Resolve(P, s.l, st) IN
             IF p.sig # "norm" THEN p
             ELSE LET r == Eval(P, s.x, p.st) IN
                  IF r.sig # "norm" THEN r
-                 ELSE LET old == LRead(p.v, r.st.env)
-                          w == LWrite(p.v, Bin(s.op, old, r.v), r.st.env, 0)
-                      IN Norm(Void, [r.st EXCEPT !.env = Update(r.st.env, w.n, w.v)])
+                 ELSE LET env == EnvAt(r.st, p.v.d)
+                          old == LRead(p.v.l, env)
+                          w == LWrite(p.v.l, Bin(s.op, old, r.v), env, 0)
+                      IN Norm(Void, SetEnvAt(r.st, p.v.d, Update(env, w.n, w.v)))
       [] s.s = "print" ->
             LET r == Eval(P, s.x, st) IN
             IF r.sig # "norm" THEN r
@@ -282,7 +306,7 @@ Exec(P, s, st) ==
    an i32 (status = its low byte) or nothing (status 0); a fault prints a message after the
    output so far and exits with status 1. *)
 Run(P, fuel) ==
-    LET r == Call(P, "main", <<>>, [env |-> <<>>, out |-> <<>>, fuel |-> fuel]) IN
+    LET r == Call(P, "main", <<>>, [env |-> <<>>, stack |-> <<>>, out |-> <<>>, fuel |-> fuel]) IN
     [out |-> r.st.out,
      end |-> IF r.sig = "fault" THEN (IF r.v.why = "unwrap" THEN "unwrap" ELSE r.v.why) ELSE IF r.sig = "nofuel" THEN "nofuel" ELSE "exit",
      status |-> IF r.sig = "fault" THEN 1 ELSE IF r.sig = "nofuel" THEN -1
